@@ -4,7 +4,7 @@
    that prediction is a map over the query; that the implementation factors through this model is what
    the correspondence run establishes (it is where the F6 defect was found and repaired). *)
 From Coq Require Import List Permutation QArith.
-From FDAV Require Import Base.Num Base.Vec Model.Basis Model.Smooth Model.Pspline Lemmas.Smooth.
+From FDAV Require Import Base.Num Base.Vec Model.Basis Model.Smooth Model.Pspline Lemmas.Smooth Lemmas.SmoothMore.
 Import ListNotations.
 
 (* any pointwise smoother (P-splines with a fitted state, local polynomials with the data):
@@ -40,3 +40,37 @@ Theorem C07_predict_rebuild_refuted :
   ps_predict opsQ f6_state [0; 1#2; 1] = [0; 1#2; 1].
 Proof. exact predict_rebuild_refuted. Qed.
 Print Assumptions C07_predict_rebuild_refuted.
+
+(* ---- composition of queries: the prediction at a concatenated query is the concatenation of the
+   predictions, one value per requested location, and a repeated location gets the same value ---- *)
+Theorem C07_ps_predict_app : forall (T : Type) (o : ops T) st Q1 Q2,
+  ps_predict o st (Q1 ++ Q2) = ps_predict o st Q1 ++ ps_predict o st Q2.
+Proof. exact @ps_predict_app. Qed.
+Print Assumptions C07_ps_predict_app.
+Theorem C07_ps_predict_length : forall (T : Type) (o : ops T) st Q, length (ps_predict o st Q) = length Q.
+Proof. exact @ps_predict_length. Qed.
+Print Assumptions C07_ps_predict_length.
+Theorem C07_ps_predict_repeat : forall (T : Type) (o : ops T) st Q i j d,
+  (i < length Q)%nat -> (j < length Q)%nat -> nth i Q d = nth j Q d ->
+  nth i (ps_predict o st Q) (ps_eval o st d) = nth j (ps_predict o st Q) (ps_eval o st d).
+Proof. exact @ps_predict_repeat. Qed.
+Print Assumptions C07_ps_predict_repeat.
+(* only the coefficients and the FIT domain/basis parameters of the state are consulted *)
+Theorem C07_ps_predict_state_fields : forall (T : Type) (o : ops T) (st st' : ps_state) Q,
+  ps_beta st = ps_beta st' -> ps_a st = ps_a st' -> ps_b st = ps_b st' ->
+  ps_nseg st = ps_nseg st' -> ps_deg st = ps_deg st' -> ps_predict o st Q = ps_predict o st' Q.
+Proof. exact @ps_predict_state_fields. Qed.
+Print Assumptions C07_ps_predict_state_fields.
+(* F6 (repaired) characterised: rebuilding the basis on the query is invisible exactly on queries that span
+   the fit domain — the only queries the test-suite makes *)
+Theorem C07_predict_rebuild_same_range : forall (T : Type) (o : ops T) st q0 Q,
+  lmin o (q0 :: Q) q0 = ps_a st -> lmax o (q0 :: Q) q0 = ps_b st ->
+  ps_predict_rebuild o st (q0 :: Q) = ps_predict o st (q0 :: Q).
+Proof. exact @ps_predict_rebuild_same_range. Qed.
+Print Assumptions C07_predict_rebuild_same_range.
+(* non-vacuity: a query spanning [0, 1] meets both premises on the F6 state, one inside (1/2, 1) does not *)
+Example C07_same_range_example :
+  lmin opsQ [0; 1#2; 1] 0 = ps_a f6_state /\ lmax opsQ [0; 1#2; 1] 0 = ps_b f6_state /\
+  ps_predict_rebuild opsQ f6_state [0; 1#2; 1] = ps_predict opsQ f6_state [0; 1#2; 1] /\
+  lmin opsQ [1#2; 1] (1#2) <> ps_a f6_state.
+Proof. vm_compute. repeat split; discriminate. Qed.
